@@ -8,6 +8,7 @@ package fhir
 
 // C15: the offset is rendered as sign, whole hours, remaining whole minutes of |offset|
 //@ func extractTimezone(t) (res)
+//@   defines res == tzS(t)
 //@   assuming tOff(t) > 0 - 9223372036854775808
 //@   ensures tOff(t) < 0 ==> res == sprintf_SII("%s%02d:%02d", "-", (0 - tOff(t)) / 3600, ((0 - tOff(t)) % 3600) / 60)
 //@   ensures tOff(t) >= 0 ==> res == sprintf_SII("%s%02d:%02d", "+", tOff(t) / 3600, (tOff(t) % 3600) / 60)
@@ -41,11 +42,11 @@ package fhir
 //@   fresh res
 //@   ensures res != nil && res.Precision == dtpb.Date_DAY
 //@   ensures fits(fdiv(tInst(t), 1000), int64(0)) ==> int(res.ValueUs) == fdiv(tInst(t), 1000)
-//@   defines res.Timezone == tzS(t)
+//@   ensures res.Timezone == tzS(t)
 //@   assigns nothing
 //@ func DateTime(t) (res)
 //@   fresh res
 //@   ensures res != nil && res.Precision == dtpb.DateTime_MICROSECOND
 //@   ensures fits(fdiv(tInst(t), 1000), int64(0)) ==> int(res.ValueUs) == fdiv(tInst(t), 1000)
-//@   defines res.Timezone == tzS(t)
+//@   ensures res.Timezone == tzS(t)
 //@   assigns nothing
